@@ -1,4 +1,5 @@
 import GoldModel.Lemmas.GoldWF
+import GoldModel.Gen.E4_AstNodes
 /-!
 # C04 — parsing is total (parser part; the lexer part is `Gold.C05.lex_total`)
 
@@ -93,6 +94,28 @@ theorem parse_total (ts : List Tok) :
 theorem parseGoldNoMemo_is_root (ts : List Tok) : (parseGoldNoMemo ts).1.kind = "root" := by
   obtain ⟨v, d, h⟩ := parse_total ts
   simp [parseGoldNoMemo, h, rootOf, mk, Tree.kind]
+
+/-! ## the node table regenerated from `src/parser/ast.rs` (E4) -/
+
+/-- no node kind falls back to the `todo!()` defaults of `get_identifier` / `to_string_type` -/
+theorem no_todo : (Gen.astNodes.all fun n => n.hasIdentifier && n.hasStringType) = true := by decide +kernel
+
+/-- the two child views of every node kind list the same fields in the same order -/
+theorem views_agree : (Gen.astNodes.all fun n => n.refView == n.arcView) = true := by decide +kernel
+
+/-- the type strings are pairwise distinct (a dump identifies the node kind) -/
+theorem type_strings_distinct : (Gen.astNodes.map (·.typeStr)).Nodup := by decide +kernel
+
+/-- every node kind the grammar model builds is a node kind of the implementation -/
+def modelKinds : List String :=
+  ["root", "terminal", "class", "module", "uses", "type_basic", "type_sized", "empty_node", "enum_member", "type_enum",
+   "type_ref", "type_set", "type_decl", "const_decl", "gvar_decl", "proc_decl", "func_decl", "param_decl_list",
+   "param_decl", "method_body", "comment", "bin_op", "unary_op", "method_call", "cond_block", "if", "for", "foreach",
+   "while", "loop", "lvar_decl", "return", "set_literal", "when", "switch", "type_record_field", "type_record",
+   "type_pointer", "type_array", "type_range", "type_proc", "type_func", "type_instanceof", "array_access", "repeat",
+   "method_name_w_event", "oql_select", "oql_from_node", "oql_join_node", "oql_order_by_node", "oql_fetch"]
+
+theorem model_kinds_exist : (modelKinds.all fun k => Gen.astNodes.any (·.typeStr == k)) = true := by decide +kernel
 
 /-- non-vacuity: a concrete three-token input goes through every clause above -/
 example : (parseGoldNoMemo [⟨Kind.Class, "class", ⟨⟨0,0⟩,⟨0,5⟩⟩⟩, ⟨Kind.Identifier, "A", ⟨⟨0,6⟩,⟨0,7⟩⟩⟩,
